@@ -94,7 +94,7 @@ BOUND = (
     "all circuits of <= 2 ops over the full alphabet (7 one-qubit gates, 3 wrappers, MeasurementZ, CNOT, CZ, classical CNOT/CZ, "
     "measure-reset on every ordered register pair) on (2e,1p,1c) and (1e,2p,2c), 3 ops over a reduced alphabet on (2e,1p,1c) "
     "(thorough: also (1e,2p,2c), (2e,2p,1c)), the 17 operation-free circuits on <= 2+2+1 registers, built with add(); "
-    "300 (thorough 3000) seeded random circuits of <= 12 ops on <= (3e,3p,2c) built with add(); 60 (thorough 600) circuits "
+    "300 (thorough 10000) seeded random circuits of <= 12 ops on <= (3e,3p,2c) built with add(); 60 (thorough 2000) circuits "
     "produced by random add/insert_at/remove_op/copy histories; each with default and explicit penalty"
 )
 
@@ -287,10 +287,10 @@ def run(tier, seed):
     circuits += [{"regs": [a, b, c], "ops": []} for a in range(3) for b in range(3) for c in range(2) if a + b + c > 0]
     circuits += FIXED
     rng = np.random.default_rng([seed, 1818])
-    for j in range(3000 if thorough else 300):
+    for j in range(10000 if thorough else 300):
         rg = [(2, 1, 1), (1, 2, 2), (3, 3, 2), (2, 2, 1), (0, 2, 1), (1, 0, 1)][j % 6]
         circuits.append({"regs": list(rg), "ops": random_ops(rng, rg, int(rng.integers(1, 13)))})
-    for j in range(600 if thorough else 60):
+    for j in range(2000 if thorough else 60):
         rg = [(2, 1, 1), (1, 2, 2), (3, 2, 1)][j % 3]
         circuits.append({"regs": list(rg), "seed": seed * 7919 + j, "len": 25})
     FIXED_ALL = FIXED
